@@ -1,28 +1,5 @@
 package websocket
 
-import (
-	"net/http"
-	"net/http/httptest"
-	"net/url"
-	"strings"
-	"time"
-
-	"github.com/karagenc/socket.io-go/engine.io/parser"
-	"github.com/karagenc/socket.io-go/engine.io/transport"
-	"nhooyr.io/websocket"
-)
-
-type verifWSRW struct{ hdr http.Header }
-
-func (w *verifWSRW) Header() http.Header {
-	if w.hdr == nil {
-		w.hdr = http.Header{}
-	}
-	return w.hdr
-}
-func (w *verifWSRW) Write(b []byte) (int, error) { return len(b), nil }
-func (w *verifWSRW) WriteHeader(int)             {}
-
 // C13_ws_limits: the per-message read limits of the WebSocket transport. M is what Engine.IO's server passes to the
 // transport and announces as maxPayload in the handshake (MaxBufferSize, or 0 when the limit is disabled), symbolic in
 // [0, 2^40]. Server: the connection's read limit is exactly M (larger messages rejected, everything within accepted),
@@ -32,114 +9,4 @@ func (w *verifWSRW) WriteHeader(int)             {}
 // source); natively the same sizes are pushed through a real loop-back WebSocket pair of the two transports.
 //
 //verif:unwind 12
-func verifH_C13_ws_limits() {
-	M := verifAnyInt64()
-	verifAssume(M >= 0 && M <= 1<<40)
-	m := verifAnyInt64() // size of a server->client message within the announced limit
-	verifAssume(m >= 0 && m <= 1<<40 && (M == 0 || m <= M))
-	up := verifAnyInt64() // size of a client->server message
-	verifAssume(up >= 0 && up <= 1<<40)
-	upgrade := verifAnyBool()
-	sid := ""
-	if upgrade {
-		sid = "sid1"
-	}
-	if verifIsNative() {
-		verifWSNative(M, m, up, sid)
-		return
-	}
-	st := NewServerTransport(transport.NewCallbacks(), M, true, nil)
-	_, err := st.Handshake(nil, &verifWSRW{}, &http.Request{Method: "GET", URL: &url.URL{Path: "/engine.io/"}, Header: http.Header{}})
-	verifAssert(err == nil, "server handshake succeeds")
-	ls := verifWSReadLimit(st.conn)
-	if M > 0 {
-		if up <= M {
-			verifAssert(ls < 0 || up <= ls, "the server accepts every inbound WebSocket message within MaxBufferSize")
-		} else {
-			verifAssert(ls >= 0 && up > ls, "the server refuses an inbound WebSocket message larger than MaxBufferSize")
-		}
-	} else {
-		verifAssert(ls < 0 || up <= ls, "with MaxBufferSize disabled the server accepts inbound WebSocket messages of any size")
-	}
-	u, _ := url.Parse("http://verif.invalid/engine.io/")
-	ct := NewClientTransport(transport.NewCallbacks(), sid, 4, *u, nil, &websocket.DialOptions{})
-	ct.Handshake() // a fresh connection goes on to read the OPEN packet, which the stub cannot deliver: the limit must be set before that
-	verifAssert(ct.conn != nil, "client dialled")
-	lc := verifWSReadLimit(ct.conn)
-	verifAssert(lc < 0 || m <= lc, "the client accepts every WebSocket message within the maxPayload the server announced (any size when none is announced)")
-	verifReach("end")
-}
-
-// verifWSNative pushes messages of the model's sizes (capped at 200000 bytes, still beyond the library's 32 KiB default)
-// through a real loop-back WebSocket connection between the repository's server and client transports.
-func verifWSNative(M, m, up int64, sid string) {
-	capTo := func(v int64) int {
-		if v > 200000 {
-			return 200000
-		}
-		return int(v)
-	}
-	upN, mN := capTo(up), capTo(m)
-	if M > 0 && int64(upN) <= M && up > M {
-		upN = int(M) + 1 // keep "larger than the limit" true after capping
-	}
-	type result struct {
-		gotLen int
-		err    error
-	}
-	serverGot := make(chan result, 1)
-	ts := httptest.NewServer(http.HandlerFunc(func(w http.ResponseWriter, r *http.Request) {
-		st := NewServerTransport(transport.NewCallbacks(), M, true, nil)
-		if _, err := st.Handshake(nil, w, r); err != nil {
-			serverGot <- result{0, err}
-			return
-		}
-		if sid == "" {
-			// fresh connection: the client expects the OPEN packet first
-			st.Send(&parser.Packet{Type: parser.PacketTypeOpen, Data: []byte(`{"sid":"x","upgrades":[],"pingInterval":25000,"pingTimeout":20000,"maxPayload":` + itoa(M) + `}`)})
-		}
-		st.Send(&parser.Packet{Type: parser.PacketTypeMessage, Data: make([]byte, mN)})
-		p, err := st.nextPacket()
-		n := 0
-		if p != nil {
-			n = len(p.Data)
-		}
-		serverGot <- result{n, err}
-		time.Sleep(200 * time.Millisecond)
-	}))
-	defer ts.Close()
-	u, _ := url.Parse(strings.Replace(ts.URL, "http://", "http://", 1) + "/engine.io/")
-	ct := NewClientTransport(transport.NewCallbacks(), sid, 4, *u, nil, &websocket.DialOptions{})
-	_, err := ct.Handshake()
-	verifAssert(err == nil, "client dialled")
-	p, err := ct.nextPacket()
-	verifAssert(err == nil && p != nil && len(p.Data) == mN, "the client accepts every WebSocket message within the maxPayload the server announced (any size when none is announced)")
-	ct.Send(&parser.Packet{Type: parser.PacketTypeMessage, Data: make([]byte, upN)})
-	var r result
-	select {
-	case r = <-serverGot:
-	case <-time.After(3 * time.Second):
-		r = result{0, http.ErrHandlerTimeout}
-	}
-	if M > 0 {
-		if up <= M {
-			verifAssert(r.err == nil && r.gotLen == upN, "the server accepts every inbound WebSocket message within MaxBufferSize")
-		} else {
-			verifAssert(r.err != nil, "the server refuses an inbound WebSocket message larger than MaxBufferSize")
-		}
-	} else {
-		verifAssert(r.err == nil && r.gotLen == upN, "with MaxBufferSize disabled the server accepts inbound WebSocket messages of any size")
-	}
-}
-
-func itoa(v int64) string {
-	if v == 0 {
-		return "0"
-	}
-	var b []byte
-	for v > 0 {
-		b = append([]byte{byte('0' + v%10)}, b...)
-		v /= 10
-	}
-	return string(b)
-}
+func verifH_C13_ws_limits() { verifWSLimits(false) }
